@@ -14,6 +14,7 @@ import (
 func init() { Registry["C10"] = Spec{Run: runC10, Packages: []string{"par"}} }
 
 func runC10(ctx *core.Ctx) {
+	c10Round6(ctx)
 	ctx.Trusted = append(ctx.Trusted, "go/types, go/ssa", "sync.Map.LoadOrStore stores at most one value per key; sync/atomic load/store give acquire/release ordering (Go memory model); sync.Mutex semantics")
 	p := ctx.P
 	ctx.Rule("K1", "single entry per key: Cache.m is used only through Load and LoadOrStore, and the entry Do works on is the value one of them returned", 2)
